@@ -241,6 +241,13 @@ def oracle_coords(case, R):
         got = np.atleast_2d(n2p.getcoordinates(uset, gids, csys, cref))
         if not R.check(got.shape == (len(gids), 3), "getcoordinates_shape", str(got.shape)):
             continue
+        # the rows answer the ids in the order they are asked for (not in table order), also for subsets
+        if len(gids) >= 2:
+            for nm_, sel_ in (("reversed", list(range(len(gids)))[::-1]),
+                              ("rotated_subset", (list(range(1, len(gids))) + [0])[:max(2, len(gids) - 1)])):
+                gsel = np.atleast_2d(n2p.getcoordinates(uset, [gids[i] for i in sel_], csys, cref))
+                ok_ = gsel.shape == (len(sel_), 3) and float(np.abs(gsel - got[sel_]).max()) <= TOL * S
+                R.check(ok_, "getcoordinates_id_order", f"ids asked {nm_} in cid {q}: rows do not follow the request")
         # same call with explicit basic locations instead of grid ids
         got2 = np.atleast_2d(n2p.getcoordinates(uset, np.array(pts), csys, cref))
         # and one grid at a time (scalar id)
